@@ -499,7 +499,11 @@ def b_str_find(ex, state, args, kwargs, sv):
 
 @builtin("bytes.join")
 def b_bytes_join(ex, state, args, kwargs, sv):
+    if isinstance(args[0], VUnion):
+        return ex.dist(state, [args[0]], lambda x: b_bytes_join(ex, state, [x], kwargs, sv))
     a = args[0]
+    if isinstance(a, VNoneT):
+        _type_error(ex, state)
     sepv = simp(sv.t)
     if isinstance(a, VRef):
         o = ex.obj(state, a)
